@@ -74,10 +74,18 @@ def canon_circuit(circ, stats):
     return out
 
 
+def type_of_count(gen, n):
+    import numpy as np
+    return [int, np.int64, int, np.int32, np.uint32][(n + len(gen)) % 5].__name__
+
+
 def run_impl(gen, n, stats):
     """({'ok': canonical list} | {'err': name}, circuit or None)"""
     try:
-        c = generators()[gen](n)
+        # the qubit count arrives as a Python int or as a NumPy integer scalar (a count taken from np.arange / an array shape / a sweep)
+        import numpy as np
+        cast = [int, np.int64, int, np.int32, np.uint32][(n + len(gen)) % 5] if isinstance(n, int) and n >= 1 else (lambda v: v)
+        c = generators()[gen](cast(n))
     except Exception as e:                            # noqa
         return {"err": type(e).__name__}, None
     return {"ok": canon_circuit(c, stats)}, c
@@ -282,6 +290,13 @@ def main(ctx):
                 res = run_oracles(gen, n, c, plan, xs)
             except Exception as e:                    # noqa  the real circuit cannot even be simulated
                 res = ("simulate", f"ideal simulation of the returned circuit raised {type(e).__name__}: {e}", None)
+            if not res and "ok" in r:
+                # at every size (also beyond what can be simulated): a controlled-phase angle that is not +-pi/2^k, k >= 1, for finite k
+                # (inf, nan, 0, an unbound parameter) cannot be part of the documented circuit
+                odd = next((rec for rec in r["ok"] if rec[0] == "cp" and rec[3] and isinstance(rec[3][0], str)), None)
+                if odd is not None:
+                    res = ("angle", f"{gen}(n={n}, count given as {type_of_count(gen, n)}): controlled-phase gate on qubits {odd[1]} has the angle "
+                                    f"{odd[3][1]} ({odd[3][0]}); the documented circuit has pi/2^k there", None)
             if res:
                 oracle_fail.append((gen, n, res))
             if gen == "hinvqft" and c is not None and n <= n_op - 1 and not res:
@@ -387,6 +402,11 @@ def replay(ctx, path):
     gen, n, x = rp["generator"], rp["n"], rp.get("x")
     stats = {"max_angle_dev": 0.0, "max_k": 0, "expanded_wrappers": 0}
     r, c = run_impl(gen, n, stats)
+    if rp["check"] == "angle":
+        odd = next((rec for rec in r.get("ok", []) if rec[0] == "cp" and rec[3] and isinstance(rec[3][0], str)), None)
+        print("generator:", gen, "n =", n, "count type:", type_of_count(gen, n))
+        print("oracle:", f"controlled-phase gate on {odd[1]} has angle {odd[3][1]}" if odd else "holds (every angle is +-pi/2^k)")
+        return 1 if odd else 0
     plan = {rp["check"]} if rp["check"] in ("state", "operator", "column", "readout") else {"state"}
     try:
         res = run_oracles(gen, n, c, plan, [x] if x is not None else [])
